@@ -171,9 +171,6 @@ Proof.
   - cbn [contains]. rewrite IH. apply orb_true_r.
 Qed.
 
-Lemma url_contains_own_label : forall l i, contains (label_with_instance l i) (assertion_url l i) = true.
-Proof. intros. unfold assertion_url. apply contains_app_r. Qed.
-
 (* views: everything of a claim assertion / an addition except the instance number *)
 Definition view := (string * akind * bool * arole * option nat)%type.
 Definition ca_view (x : CA) : view := (ca_label x, ca_kind x, ca_created x, ca_role x, ca_src x).
@@ -211,31 +208,48 @@ Proof.
   destruct (p (f x)); cbn; rewrite IH; reflexivity.
 Qed.
 
-(* the known class F-CREATED-SUBSTR: a gathered assertion whose label (with instance) occurs inside the URL of a
-   created assertion *)
-Definition known_misattribution (c : list CA) : Prop :=
+(* After fix 9afceaf9c the lookup is exact, so a gathered assertion is loaded as created only when its label with
+   instance suffix is literally that of a created assertion — which needs labels that use the reserved `__<n>` instance
+   syntax themselves (e.g. label "a__1" next to a second "a"); such definitions do not sign. *)
+Definition label_collision (c : list CA) : Prop :=
   exists x y, In x c /\ In y c /\ ca_created x = false /\ ca_created y = true
-              /\ contains (label_with_instance (ca_label x) (ca_inst x)) (assertion_url (ca_label y) (ca_inst y)) = true.
+              /\ label_with_instance (ca_label x) (ca_inst x) = label_with_instance (ca_label y) (ca_inst y).
+
+Definition no_collision_b (c : list CA) : bool :=
+  forallb (fun x => ca_created x
+                    || negb (existsb (fun y => ca_created y
+                                               && String.eqb (label_with_instance (ca_label x) (ca_inst x))
+                                                             (label_with_instance (ca_label y) (ca_inst y))) c)) c.
+
+Lemma no_collision_b_sound : forall c, no_collision_b c = true -> ~ label_collision c.
+Proof.
+  intros c H [x [y [Hx [Hy [Cx [Cy E]]]]]]. unfold no_collision_b in H. rewrite forallb_forall in H.
+  specialize (H x Hx). rewrite Cx in H. cbn [orb] in H. apply negb_true_iff in H.
+  assert (T : existsb (fun y0 => ca_created y0 && String.eqb (label_with_instance (ca_label x) (ca_inst x))
+                                                            (label_with_instance (ca_label y0) (ca_inst y0))) c = true).
+  { apply existsb_exists. exists y. split; [exact Hy|]. rewrite Cy, E, String.eqb_refl. reflexivity. }
+  congruence.
+Qed.
 
 Lemma loaded_created_sound :
   forall c x, In x c -> ca_created x = true -> loaded_created 2 c x = true.
 Proof.
   intros c x Hin Hc. unfold loaded_created. cbn [Nat.leb].
-  apply existsb_exists. exists (assertion_url (ca_label x) (ca_inst x)). split.
-  - unfold created_urls. apply in_map_iff. exists x. split; [reflexivity|]. apply filter_In. auto.
-  - apply url_contains_own_label.
+  apply existsb_exists. exists (label_with_instance (ca_label x) (ca_inst x)). split.
+  - unfold created_segments. apply in_map_iff. exists x. split; [reflexivity|]. apply filter_In. auto.
+  - apply String.eqb_refl.
 Qed.
 
 Lemma loaded_created_exact :
-  forall c, ~ known_misattribution c -> forall x, In x c -> loaded_created 2 c x = ca_created x.
+  forall c, ~ label_collision c -> forall x, In x c -> loaded_created 2 c x = ca_created x.
 Proof.
   intros c Hk x Hin. destruct (ca_created x) eqn:Hc; [apply loaded_created_sound; assumption|].
   unfold loaded_created. cbn [Nat.leb].
-  destruct (existsb _ (created_urls c)) eqn:E; [|reflexivity].
-  exfalso. apply Hk. apply existsb_exists in E. destruct E as [u [Hu Hcont]].
-  unfold created_urls in Hu. apply in_map_iff in Hu. destruct Hu as [y [Hy Hyin]].
+  destruct (existsb _ (created_segments c)) eqn:E; [|reflexivity].
+  exfalso. apply Hk. apply existsb_exists in E. destruct E as [u [Hu Heq]].
+  unfold created_segments in Hu. apply in_map_iff in Hu. destruct Hu as [y [Hy Hyin]].
   apply filter_In in Hyin. destruct Hyin as [Hyin Hyc].
-  exists x, y. subst u. repeat split; assumption.
+  exists x, y. subst u. apply String.eqb_eq in Heq. repeat split; assumption.
 Qed.
 
 Definition ra_view (r : RA) : string * bool * bool * option nat := (ra_label r, ra_json r, ra_created r, ra_src r).
@@ -247,7 +261,7 @@ Proof. intro x. unfold visible, v_visible, ca_view. reflexivity. Qed.
    each with its label, kind, created flag and payload as added *)
 Lemma report_v2_of_additions :
   forall d h,
-    d_version d = 2%nat -> ~ known_misattribution (to_claim d h) ->
+    d_version d = 2%nat -> ~ label_collision (to_claim d h) ->
     map ra_view (r_assertions (sign_report d h))
     = map v_report (filter v_visible
                       (filter v_created (map add_view (additions d h))
@@ -339,7 +353,7 @@ Qed.
 Lemma report_v2_as_given :
   forall d h,
     d_version d = 2%nat -> d_auto_actions d = false -> hidden_hash_label h = true ->
-    ~ known_misattribution (to_claim d h) ->
+    ~ label_collision (to_claim d h) ->
     map ra_view (r_assertions (sign_report d h))
     = (filter it_created (user_items d) ++ filter (fun t => negb (it_created t)) (user_items d))%list.
 Proof.
@@ -441,16 +455,19 @@ Proof.
   rewrite filter_app_l, map_app. destruct (v_ingredient_additions d h) as [E1 E2]. rewrite E2, E1. reflexivity.
 Qed.
 
-(* the known class is real (replayed on the implementation by ./check): org.a gathered, org.ab created *)
-Definition misattr_witness : Defn :=
-  mkD 2 false [] [mkA "c2pa.actions" false false; mkA "org.a" false false; mkA "org.ab" false true] false.
+(* the repaired class F-CREATED-SUBSTR: org.a gathered next to org.ab created, and duplicate labels with mixed flags, are
+   now reported with the supplied flags *)
+Definition substr_witness : Defn :=
+  mkD 2 false [] [mkA "c2pa.actions" false false; mkA "org.a" false false; mkA "org.ab" false true;
+                  mkA "com.x" false false; mkA "com.x" false false; mkA "com.x" false true] false.
 
-Lemma misattribution_refuted :
-  exists r, In r (r_assertions (sign_report misattr_witness "c2pa.hash.data"))
-            /\ ra_src r = Some 1%nat /\ ra_label r = "org.a" /\ ra_created r = true.
-Proof.
-  exists (mkRA "org.a" 0 false true (Some 1%nat)). split; [|repeat split]. vm_compute. tauto.
-Qed.
+Lemma substring_labels_fixed :
+  no_collision_b (to_claim substr_witness "c2pa.hash.data") = true
+  /\ map ra_view (r_assertions (sign_report substr_witness "c2pa.hash.data"))
+     = [("org.ab", false, true, Some 2%nat); ("com.x", false, true, Some 5%nat);
+        ("c2pa.actions.v2", false, false, Some 0%nat); ("org.a", false, false, Some 1%nat);
+        ("com.x", false, false, Some 3%nat); ("com.x", false, false, Some 4%nat)].
+Proof. vm_compute. split; reflexivity. Qed.
 
 (* the label dispatch drops the version suffix of a custom label (known class F-USER-VERSION) and nothing else *)
 Lemma version_suffix_refuted : claim_label "com.acme.review.v2" = "com.acme.review".
